@@ -6,6 +6,8 @@
 export GOFLAGS=-mod=mod GOPROXY=off GOSUMDB=off GOTOOLCHAIN=local
 cd /verif
 NAMES=${@:-$(ls seeded)}
+# SHARD=i/n: only every n-th seed starting at i (to run several shards side by side)
+if [ -n "$SHARD" ]; then I=${SHARD%/*}; N=${SHARD#*/}; NAMES=$(echo $NAMES | tr ' ' '\n' | awk -v i=$I -v n=$N 'NR % n == i % n'); fi
 CHECKS=$(python3 -c "import json;print(' '.join(c['property_id'] for c in json.load(open('/verif/MANIFEST.json'))['checks']))")
 SNAP=$(mktemp -d ${TMPDIR:-/var/tmp}/verif-snap.XXXXXX)
 rsync -a --exclude .git --exclude out --exclude evidence /verif/ $SNAP/
